@@ -193,11 +193,13 @@ pub fn is_valid_path(path: &str) -> bool {
                 separators = 2;
             }
             // The start of an identifier
-            c if separators % 2 == 0 && is_xid_start(c) => {
+            // Rust identifiers may also start with an underscore
+            c if separators % 2 == 0 && (is_xid_start(c) || c == '_') => {
                 separators = 0;
             }
             // The middle of an identifier
-            c if is_xid_continue(c) => (),
+            // This can't follow a separator (complete or incomplete)
+            c if separators == 0 && is_xid_continue(c) => (),
             // An invalid character
             _ => return false,
         }
